@@ -172,27 +172,29 @@ class SimFS:
         else:
             k.dead_all = True
 
-    # ---------------------------------------------------------------- digest
     def tree_digest(self, sub=""):
-        saved, context.CURRENT = context.CURRENT, None  # never draw from the tape while hashing
-        try:
-            return self._tree_digest(sub)
-        finally:
-            context.CURRENT = saved
+        return tree_digest(os.path.join(self.root, sub) if sub else self.root)
 
-    def _tree_digest(self, sub=""):
+
+def tree_digest(base):
+    """Digest of names, sizes and contents below `base`; never draws from the tape."""
+    saved, context.CURRENT = context.CURRENT, None
+    try:
         h = hashlib.sha256()
-        base = os.path.join(self.root, sub) if sub else self.root
-        for dp, dns, fns in _real["walk"](base):
+        walk = _real.get("walk", os.walk)
+        opn = _real.get("open", builtins.open)
+        for dp, dns, fns in walk(base):
             dns.sort()
-            rel = dp[len(self.root):]
+            rel = dp[len(base):]
             h.update(f"D{rel}\n".encode())
             for fn in sorted(fns):
-                with _real["open"](os.path.join(dp, fn), "rb") as f:
+                with opn(os.path.join(dp, fn), "rb") as f:
                     data = f.read()
                 h.update(f"F{rel}/{fn}:{len(data)}:".encode())
                 h.update(hashlib.sha256(data).digest())
         return h.hexdigest()[:16]
+    finally:
+        context.CURRENT = saved
 
 
 # -------------------------------------------------------------------- patched entry points
